@@ -420,6 +420,10 @@ def run(ctx):
     _exact_match(ctx)
     _independent_tables(ctx)
     neutral_answers_of_the_placeholder(ctx)
+    # R20.11 = R13.6 seen from the lookup side: a type merged into a different one because the local table of merge_from was
+    # asked with another name than it is keyed by can no longer be found by its own (unique, stored) name.  (Seed S8-C20.)
+    from .C13 import _local_map_keys_agree
+    _local_map_keys_agree(ctx, rid="R20.11")
 
     # ------------------------------------------------------------- R20.7 = R13.2
     ctx.rule("R20.7", "by-name lookups are exact only if the name tables are rebuilt after every load: merge_from resets the freshness word after its last mutation, lookup() refreshes exactly the stale table (= R13.2)")
